@@ -1,5 +1,6 @@
 import Pms.Props.C09
 import Pms.Props.C09Add
+import Pms.Props.C09Mod
 
 #print axioms Pms.Boo.C09_qlm_def
 #print axioms Pms.Boo.C09_weighted_def
@@ -32,3 +33,4 @@ import Pms.Props.C09Add
 #print axioms Pms.Boo.C09_ql_cosines
 #print axioms Pms.Boo.C09_reference_shells
 #print axioms Pms.Boo.C09_reference_shells_rotated
+#print axioms Pms.ModShape.C09_module_shape
